@@ -4,6 +4,7 @@ import ComposeVerif.Lemmas.Include
 import ComposeVerif.Lemmas.PathsCompose
 import ComposeVerif.Lemmas.PathsClean
 import ComposeVerif.Lemmas.C11Walk
+import ComposeVerif.Lemmas.ShortIdem
 import ComposeVerif.Gen.Tables
 import ComposeVerif.Props.C06
 /-!
@@ -21,9 +22,12 @@ models, what those stages do to an imported resource `v` at its path `p = [secti
   repair of the resolvers, the guarded join, made `resolve_compose` hold at full strength: `composeAt_all`);
 * **nesting**: two levels of include resolve like one level against the twice-joined directory (`join_assoc`).
 
-Not proved here: that `SetDefaultValues` leaves a *resolved* resource alone (defaults and path resolution commute),
-and the canonical transformers on whole documents (C03 proves their idempotence leaf-wise).  Both are covered by the
-paste oracle on the real loader.
+* **canonical form**: `transform.Canonical` run again by the parent is the identity on an imported resource (C03).
+
+Not proved here: that `SetDefaultValues` and `Canonical` leave a *resolved* resource alone (the parent runs them on the
+value after stage-1 path resolution, i.e. on `v`, while their idempotence is about `d`/`c`; one needs that path
+resolution preserves being a fixed point of both — it only rewrites strings at path attributes, C12 `frame`).  That
+commutation is covered by the paste oracle on the real loader.
 -/
 namespace CV.Include
 open CV CV.Val CV.Paths
@@ -41,6 +45,13 @@ theorem toList_ne_nil (w : String) (h : w ≠ "") : w.toList ≠ [] := by
 theorem imported_defaults_stable (tbl : List (List String × String)) (p : TPath) (u d : Val)
     (h : CV.C11.setDefaults tbl p u = .ok d) : CV.C11.setDefaults tbl p d = .ok d :=
   CV.C11.setDefaults_idem tbl p u d h
+
+/-- **imported_canonical_stable**: the included load canonicalised the resource (`c`, at its path `p`); when the parent
+runs `transform.Canonical` over the merged document again, the imported resource is a fixed point (C03's
+`canonical_idem` induction, at any path) -/
+theorem imported_canonical_stable (p : TPath) (u c : Val)
+    (h : CV.Short.transform false p u = .ok c) : CV.Short.transform false p c = .ok c :=
+  CV.Short.idem_T u p c h
 
 /-- the directory of the one-stage resolution is `filepath.Join(wd, relwd)` of the C12 model -/
 theorem cfgAt_join (home : Option Paths.Str) (wd relwd : String) :
